@@ -33,6 +33,10 @@ type Options struct {
 	TrustedProxyCIDRs     []string
 }
 
+// parseTrustedProxyCIDRs returns nil when no trusted proxy CIDR list was
+// configured (every proxy is trusted) and a non-nil slice when a list was
+// configured. Invalid entries are ignored, so a configured list without a
+// single valid entry yields a non-nil empty slice, which trusts no proxy.
 func parseTrustedProxyCIDRs(cidrStrings []string) []*net.IPNet {
 	if len(cidrStrings) == 0 {
 		return nil
@@ -87,7 +91,10 @@ func isTrustedProxy(remoteIP *string, trustedProxyCIDRs []*net.IPNet) bool {
 	if ip == nil {
 		return false
 	}
-	if len(trustedProxyCIDRs) == 0 {
+	// nil means "no list configured": trust every proxy. A configured list
+	// whose entries were all invalid is empty but non-nil and must not fall
+	// back to trusting everyone.
+	if trustedProxyCIDRs == nil {
 		return true
 	}
 	for _, cidr := range trustedProxyCIDRs {
